@@ -1,11 +1,12 @@
 //! C05 probe at the edge of "sizes that fit in memory": count-min sketches wider than 2^32 counters.
-//! The rows are allocated zeroed (lazily backed), only a handful of pages are ever touched.
+//! The rows are allocated zeroed (lazily backed), only a handful of pages are ever touched (the sample size is
+//! larger than the number of probes so that no reset ever sweeps the rows; the doorkeeper is sized by it, so keep it small).
 //! Prints one line per probe: `bigsketch size=<n> hash=<h> => ok <estimate> | PANIC <msg> | skipped <why>`.
 use caches::lfu::TinyLFU;
 use std::panic::{catch_unwind, AssertUnwindSafe};
 
 fn probe(size: usize, hashes: &[u64]) {
-    let built = catch_unwind(AssertUnwindSafe(|| TinyLFU::<u64>::new(size, 10, 0.01)));
+    let built = catch_unwind(AssertUnwindSafe(|| TinyLFU::<u64>::new(size, 1000, 0.01)));
     let mut t = match built {
         Ok(Ok(t)) => t,
         Ok(Err(e)) => {
